@@ -85,6 +85,13 @@ def generate(ctx):
     for i in range(ctx.n(6, 30)):
         table = [t for t in gen_table(rng, False) if t]
         cases.append(dict(kind="module", mode="abi", names=[t.decode() for t in table]))
+    # names that collide with module-like attributes of the lib object (lib.__dict__, lib.__all__, ...)
+    special = ["__all__", "__dict__", "__class__", "__name__", "__loader__", "__spec__", "__doc__", "__file__",
+               "__name", "__name___", "__all___x", "__version__", "_", "__", "___", "__init__", "__path__",
+               "__package__", "__cached__", "__builtins__"]
+    for i in range(ctx.n(2, 8)):
+        k = len(special) if i == 0 else rng.randrange(3, len(special))
+        cases.append(dict(kind="module", mode="dunder", names=sorted(rng.sample(special, k))))
     if ctx.thorough:
         for i in range(3):
             table = [t for t in gen_table(rng, False) if t]
